@@ -378,6 +378,8 @@ def make_robot(layout, uid):
                "use_teleop_in_autonomous": bool(layout["teleAuto"])}
     for name in ("autonomousInit", "teleopInit", "teleopPeriodic", "disabledInit", "disabledPeriodic",
                  "testInit", "testPeriodic", "robotPeriodic"):
+        if name == "robotPeriodic" and not layout.get("rp", True):
+            continue        # the default robotPeriodic() stays: it updates the dashboard values (chooser selection)
         base_ns[name] = mk(name)
     for g in layout["feedbacks"]:
         if g["o"] == "robot":
@@ -554,6 +556,8 @@ class RandomPolicy:
             evs.append({"e": "fms", "b": self.fms})
         if rng.random() < 0.10:
             evs.append({"e": "sel", "s": rng.choice(self.layout["modes"] + ["bogus", ""])})
+        if not self.layout.get("rp", True) and rng.random() < 0.15:
+            evs.append({"e": "choose", "m": rng.choice(self.layout["modes"] + ["None", "None"])})
         return evs
 
 
@@ -591,9 +595,9 @@ class ScriptPolicy:
 
     def env_events(self):
         evs = []
-        while self.i < len(self.ev) and self.ev[self.i]["e"] in ("wait",):
+        while self.i < len(self.ev) and (self.ev[self.i]["e"] in ("wait",) or self.ev[self.i].get("_used")):
             self.i += 1
-        while self.i < len(self.ev) and self.ev[self.i]["e"] in ("ds", "fms", "sel", "end"):
+        while self.i < len(self.ev) and self.ev[self.i]["e"] in ("ds", "fms", "sel", "end", "choose"):
             e = self.ev[self.i]
             self.i += 1
             evs.append(None if e["e"] == "end" else e)
@@ -678,6 +682,7 @@ def gen_layout(rng, uid):
             "period": rng.choice([20000, 20000, 5000, 15625]),
             "inherit": inherit, "redeclare": redeclare, "shadow": shadow, "sm": sm, "sameclass": sameclass,
             "initassign": initassign, "derive": derive, "derive_redecl": derive_redecl,
+            "rp": rng.random() < 0.7,
             "hookform": {c: {k: rng.choice(["method", "method", "static", "class", "attr"])
                              for k in ("setup", "on_enable", "on_disable")}
                          for c in comps if c not in sameclass and c not in sameclass.values()
@@ -697,6 +702,9 @@ def apply_env(e):
         DS.notifyNewData()
     elif e["e"] == "sel":
         wpilib.SmartDashboard.putString("Auto Selector", e["s"])
+    elif e["e"] == "choose":
+        # the chooser widget: only the NetworkTables value changes; the robot fetches it in SmartDashboard.updateValues()
+        Rec.inst.getEntry("/SmartDashboard/Autonomous Mode/selected").setString(e["m"])
 
 
 def run_history(tid, layout, fms, policy_factory, scratch):
@@ -712,6 +720,9 @@ def run_history(tid, layout, fms, policy_factory, scratch):
     Rec.t0 = wpilib.RobotController.getFPGATime()
     inst.getEntry("/robot/mode").setString("")
     wpilib.SmartDashboard.putString("Auto Selector", "")
+    # wpilib's chooser keeps the NetworkTables 'selected' value across choosers: make the start state explicit
+    inst.getEntry("/SmartDashboard/Autonomous Mode/selected").setString(
+        layout["defmode"] if layout["defmode"] != "none" else "None")
     write_auto_package(scratch, layout)
     DS.resetData()
     DS.setDsAttached(True)
